@@ -267,6 +267,32 @@ func c19(p *P) {
 		})
 		r.Check(headCC && headND, "C19.R3", "both take the HEAD finalized by the look-back certificate", p.c.Pos(cc.Pos()), "Head() of the look-back certificate's chain", fmt.Sprintf("certchain uses head: %v, node uses head: %v", headCC, headND))
 	}
+	// AS5 support: the look-back list only ever receives certificates that passed every check of Validate —
+	// a rejected certificate that stays in the list shifts the committee of every later instance away from the node's rule
+	if va := p.fn("C19.R3", "certchain.CertChain.Validate"); va != nil {
+		var apps []Sink
+		for _, fs := range fieldStores(va, false, "CertChain", "certificates") {
+			apps = append(apps, Sink{fs.Store, "certificate added to the look-back list"})
+		}
+		if len(apps) == 0 {
+			r.Undecided("C19.R3", "certchain.CertChain.Validate: look-back list", "no append to certificates found")
+		} else {
+			p.guardedAfter("C19.R3", va, apps,
+				errFails("supplemental data derivable", "certchain.CertChain.getSupplementalData", ""),
+				callResult("supplemental data equal", "gpbft.SupplementalData.Eq", "", -1, avFalse),
+				errFails("committee derivable", "certchain.CertChain.GetCommittee", ""),
+				errFails("signature reproducible", "certchain.CertChain.sign", ""),
+				callResult("signature equal", "bytes.Equal", "", -1, avFalse),
+				errFails("delta applies", "certs.ApplyPowerTableDiffs", ""),
+				errFails("next table CID computable", "certs.MakePowerTableCID", ""),
+				callResult("delta yields the committed table", "github.com/ipfs/go-cid.Cid.Equals", "", -1, avFalse))
+			// … and it is added only AFTER the checks of its own iteration (not before them)
+			for _, chk := range []string{"certchain.CertChain.getSupplementalData", "gpbft.SupplementalData.Eq", "certchain.CertChain.GetCommittee", "certchain.CertChain.sign", "bytes.Equal", "certs.ApplyPowerTableDiffs", "certs.MakePowerTableCID", "github.com/ipfs/go-cid.Cid.Equals"} {
+				short := chk[strings.LastIndex(chk, ".")+1:]
+				p.before("C19.R3", va, "check "+short, callSinks(va, "check "+short, chk), "look-back list append", apps)
+			}
+		}
+	}
 }
 
 // onlyCalledFromAtLeast: the named callers must exist (others are allowed).
